@@ -48,6 +48,7 @@ var c03KindSafe = map[string]string{
 
 func runC03(c *Ctx) {
 	p := c.P
+	ruleCompositeDecoderFits(c, "R03.7")
 	rv := p.Fn("(*rt/middleware.untypedParamBinder).readValue")
 	isName := vFieldLoad(paramPropsT, "Name", nil)
 	isIn := vFieldLoad(paramPropsT, "In", nil)
@@ -304,6 +305,29 @@ func runC03(c *Ctx) {
 		}
 		c.obI("R03.6", ff, "missing-required-file-is-an-error", okF, "a missing file upload is ignored only for optional parameters", "")
 	}
+	// "when one exists": the binder built for a declared parameter ALWAYS gets a validator — whatever its location
+	// (the request binder skips a nil validator silently, so a location left out here loses its declared validations)
+	{
+		nb := p.Fn("rt/middleware.newUntypedParamBinder")
+		isValStore := func(in ssa.Instruction) bool {
+			st, ok := in.(*ssa.Store)
+			if !ok {
+				return false
+			}
+			fa, ok := fieldAddrOf(st.Addr, "rt/middleware.untypedParamBinder", "validator")
+			if !ok || fa == nil {
+				return false
+			}
+			okV, _ := allOrigins(st.Val, oCall(-1, "github.com/go-openapi/validate.NewParamValidator"), oCall(-1, "github.com/go-openapi/validate.NewSchemaValidator"))
+			return okV
+		}
+		nRet := 0
+		for _, r := range realReturns(nb) {
+			nRet++
+			c.obI("R03.6", r, "every-binder-has-a-validator", !pathExists(nb, nil, r, nil, isValStore), "newUntypedParamBinder installs a validator (parameter or schema validator) on every path: no location is left without its declared validations", "a binder can be returned without a validator")
+		}
+		c.obRF("R03.6", nb, "binder-constructor-returns", nRet >= 1, "the binder constructor returns", "")
+	}
 	ub := p.Fn("(*rt/middleware.UntypedRequestBinder).Bind")
 	binds := callsIn(ub, "(*rt/middleware.untypedParamBinder).Bind")
 	vals := callsIn(ub, "(github.com/go-openapi/validate.EntityValidator).Validate")
@@ -440,7 +464,21 @@ func runC03(c *Ctx) {
 			}
 			srcDesc = describe(conv(src))
 			for _, l := range locs {
-				if l.src(src) && site.guarded(pb, factEqString(isIn, l.name, true)) {
+				// the source may be chosen first and read once (`vals := PostForm; if MultipartForm != nil { vals = … }`):
+				// every alternative merged into it must be a source of this location
+				var each func(v ssa.Value, d int) bool
+				each = func(v ssa.Value, d int) bool {
+					if phi, isPhi := conv(v).(*ssa.Phi); isPhi && d < 4 {
+						for _, e := range phi.Edges {
+							if !each(e, d+1) {
+								return false
+							}
+						}
+						return len(phi.Edges) > 0
+					}
+					return l.src(v)
+				}
+				if each(src, 0) && site.guarded(pb, factEqString(isIn, l.name, true)) {
 					matched = l.name
 				}
 			}
